@@ -52,7 +52,8 @@ def meta_of(mod, tier):
         mn = max(int(quick_of("min_nontrivial", 2)), mn // 8)
     return {
         "nshards": int(os.environ.get("PV_SHARDS") or pick("shards", 1 if tier == "quick" else 8)),
-        "budget_s": float(os.environ.get("PV_BUDGET") or pick("budget_s", 60 if tier == "quick" else 600)),
+        "budget_s": float(os.environ.get("PV_BUDGET") or (pick("budget_s", 60) if tier == "quick" else
+                                                           min(float(pick("budget_s", 600)), float(os.environ.get("PV_THOROUGH_CAP", "200"))))),
         "min_evals": me,
         "min_nontrivial": mn,
     }
